@@ -33,6 +33,7 @@ mod rng;
 mod sink;
 mod sweep;
 mod typed;
+mod tinfo;
 mod wire;
 
 use sink::Reply;
@@ -69,6 +70,7 @@ const EXECS: &[Exec] = &[
     c19::exec,
     c32::exec,
     c33::exec,
+    tinfo::exec,
 ];
 
 /// Run one case (`op` + inputs) on the implementation: the first module that recognises the op answers.
@@ -84,9 +86,18 @@ fn generate(prop: &str, sink: &mut sink::Sink, rng: &mut rng::Rng, n: u64) -> bo
         "C07" => lang::generate(sink, rng, n, false, Some("o.c07")),
         "C08" => lang::generate(sink, rng, n, false, Some("o.c08")),
         "C09" => lang::generate(sink, rng, n, false, Some("o.c09")),
-        "C01" => typed::generate(sink, rng, n, "o.c01"),
-        "C02" => typed::generate(sink, rng, n, "o.c02"),
-        "C12" => typed::generate(sink, rng, n, "o.c12"),
+        "C01" => {
+            typed::generate(sink, rng, n, "o.c01");
+            tinfo::generate(sink, rng, n);
+        }
+        "C02" => {
+            typed::generate(sink, rng, n, "o.c02");
+            tinfo::generate(sink, rng, n);
+        }
+        "C12" => {
+            typed::generate(sink, rng, n, "o.c12");
+            tinfo::generate(sink, rng, n);
+        }
         "C04" => sweep::generate(sink, rng, n, "o.c04.fn"),
         "C05" => sweep::generate(sink, rng, n, "o.c05.fn"),
         "C14" => c14::generate(sink, rng, n),
